@@ -121,7 +121,7 @@ class Execution:
         seen = set()
         for g in loop.pending_gates():
             if g.kind == 'collab':
-                key = ('fire', 'collab:%s' % g.info[1], g.info[0], g.gid)
+                key = ('fire', '%s:%s' % (g.info[1], g.info[3] if len(g.info) > 3 else '-'), g.info[0], g.gid)
             else:
                 info = g.info or (0, '?')
                 key = ('fire', info[1], info[0])
